@@ -24,6 +24,7 @@ from .sxlib import H
 
 PROPERTY = "C18"
 
+PROJ_TF = '  timeformat "%d.%m.%Y %H:%M"'
 SC2 = '  scenario plan "Plan" {\n    scenario s2 "S2"\n  }'
 
 
@@ -50,7 +51,13 @@ def rep_spec(kind: str) -> tuple[Spec, list[dict]]:
         away = Res("away", leaves=["annual 2025-01-01 - 2025-03-01"])
         sp.resources.append(away)
         sp.tasks.append(Task("stuck", effort=P("e3"), alloc=["away"]))
+        sp.tasks.append(Task("nobody", effort=7200))   # effort, but nothing allocated
         reps = [dict(id="rep1", cols=["id", "start", "end", "effort"], tf=None, leaf=True, sc="plan", fmts="json, csv")]
+    elif kind == "explicit-default-tf":
+        # the report chooses the format that happens to be the built-in default; the project has another one
+        reps = [dict(id="rep1", cols=["id", "start", "end"], tf="%Y-%m-%d", leaf=True, sc="plan", fmts="json, csv"),
+                dict(id="rep2", cols=["id", "start", "end"], tf=None, leaf=True, sc="plan", fmts="csv, json")]
+        sp.extra_header = PROJ_TF
     for rp in reps:
         lines = [f'taskreport {rp["id"]} "{rp["id"]}" {{', f'  formats {rp["fmts"]}', "  columns " + ", ".join(rp["cols"])]
         if rp["tf"]:
@@ -302,7 +309,7 @@ def run_table() -> dict:
     return {**res, "status": R.DISCHARGED, "detail": "all table shapes / title patterns / cell kinds within the bound"}
 
 
-KINDS = ["basic", "leaf-tf", "scenario", "unscheduled"]
+KINDS = ["basic", "leaf-tf", "scenario", "unscheduled", "explicit-default-tf"]
 _chk = sxlib.SxCheck("C18", [], lambda tier: {f"report[{k}]": (lambda k=k: ReportCell(k)) for k in KINDS})
 META = dict(sxlib.SX_META, functions=["Report.generate_intermediate_format", "TaskReport._prepare_task_list/_generate_task_line/_generate_task_cell", "TableReport._get_cell_value/_format_value/_get_cost_value",
                                       "TaskScenario.getCost", "ReportTable.to_json/to_csv"],
